@@ -214,6 +214,9 @@ func (g *Gen) Next(t *rapid.T) *Op {
 		op.K = "qOpen"
 		g.qSeq++
 		op.Q = g.qSeq
+		if m.OpenQ == 64 && rapid.IntRange(0, 3).Draw(t, "retryRejected") == 0 {
+			op.N = rapid.SampledFrom([]int{63, 191, 192, 193, 255, 256, 300}).Draw(t, "retries")
+		}
 		return op
 	}
 	if len(cs) == 0 {
@@ -325,6 +328,9 @@ func (g *Gen) Next(t *rapid.T) *Op {
 			op.K = "qOpen"
 			g.qSeq++
 			op.Q = g.qSeq
+			if m.OpenQ == 64 && rapid.IntRange(0, 3).Draw(t, "retryRejected") == 0 {
+				op.N = rapid.SampledFrom([]int{63, 191, 192, 193, 255, 256, 300}).Draw(t, "retries")
+			}
 		}
 	case "qNext":
 		op = g.genQNext(t)
@@ -521,6 +527,9 @@ func (g *Gen) genNewBatch(t *rapid.T) *Op {
 
 func (g *Gen) genNewBatch0(t *rapid.T) *Op {
 	op := &Op{K: "newBatch", N: rapid.IntRange(1, 9).Draw(t, "count")}
+	if rapid.IntRange(0, 11).Draw(t, "emptyBatch") == 0 {
+		op.N = 0 // a batch of zero entities is legal (and still resolves its table and relation targets)
+	}
 	if g.P.BigBatches && rapid.IntRange(0, 3).Draw(t, "bigBatch") == 0 {
 		op.N = rapid.IntRange(60, 90).Draw(t, "bigCount")
 	} else if !g.P.BigBatches && !g.bigDone && rapid.IntRange(0, 99).Draw(t, "rareBigBatch") == 50 {
@@ -934,6 +943,18 @@ func (g *Gen) genFilterReg(t *rapid.T) *Op {
 		}
 	}
 	fi := rapid.SampledFrom(l).Draw(t, "filter")
+	// prefer the filter of a query that is open right now (its cache entry is in use while it is unregistered, or
+	// while another filter takes its place in the cache)
+	var busy []int
+	for _, q := range m.Open {
+		if !q.done && m.Filters[q.filter].Inst >= 0 && !m.Filters[q.filter].Stale {
+			busy = append(busy, q.filter)
+		}
+	}
+	sortInts(busy)
+	if len(busy) > 0 && rapid.Bool().Draw(t, "filterOfOpenQuery") {
+		fi = rapid.SampledFrom(busy).Draw(t, "busyFilter")
+	}
 	mode := 1
 	if m.Filters[fi].Registered {
 		mode = 0
@@ -1205,6 +1226,7 @@ func (g *Gen) genObs(t *rapid.T) *Op {
 		os.UnregP1 = 1 + rapid.IntRange(0, len(g.m().Obs)).Draw(t, "unregWhom")
 	}
 	os.Order = rapid.IntRange(0, 3).Draw(t, "builderOrder")
+	os.Reenter = !removalEvent(os.Ev) && g.It.M.Reg&comps.RelMask == comps.RelMask && rapid.IntRange(0, 5).Draw(t, "reentrantCallback") == 0
 	return &Op{K: "obsNew", OS: os, Mode: rapid.SampledFrom([]int{1, 1, 1, 0}).Draw(t, "registerNow")}
 }
 
@@ -1466,6 +1488,22 @@ func (g *Gen) genScenario(t *rapid.T) *Op {
 		q = append(q, &Op{K: "new", P: PUnsafe, Comps: cl, Vals: g.vals(len(cl)), Rels: urels})
 	}
 	nSrc := rapid.IntRange(1, 4).Draw(t, "scenarioSrc")
+	exact := 0
+	if len(base) == 1 && !g.bigDone && rapid.IntRange(0, 5).Draw(t, "scenarioExactRows") == 0 {
+		// the source table holds exactly 63 / 64 / 65 / ... rows when the batch empties it as a whole; afterwards two
+		// entities are put into it without initial values (they must read as zero)
+		g.bigDone = true
+		exact = rapid.SampledFrom([]int{63, 64, 64, 65, 127, 128, 129}).Draw(t, "exactRows")
+		for _, e := range g.m().Ents {
+			if e.Alive && e.Mask == maskOf(base) {
+				exact-- // rows that are there already
+			}
+		}
+		if exact > 0 {
+			q = append(q, &Op{K: "newBatch", P: PMap, M: base[0], Comps: base, N: exact, Init: InitVal, Vals: g.vals(1)})
+			nSrc = 0
+		}
+	}
 	for i := 0; i < nSrc; i++ {
 		cl := append([]int{}, base...)
 		if len(extra) > 0 && rapid.IntRange(0, 2).Draw(t, "scenarioSecondTable") == 0 {
@@ -1497,6 +1535,9 @@ func (g *Gen) genScenario(t *rapid.T) *Op {
 	if !useEx && rapid.Bool().Draw(t, "scenarioRemoveAfter") {
 		q = append(q, &Op{K: "filterNew", FS: &FilterSpec{Inst: 0, With: append(append([]int{}, base...), list[0])}})
 		q = append(q, &Op{K: "removeBatch", F: -1, P: PMap, M: inst, Rem: list, Fn: rapid.Bool().Draw(t, "fn")})
+	}
+	if exact > 0 {
+		q = append(q, &Op{K: "new", P: PUnsafe, Comps: base}, &Op{K: "new", P: PUnsafe, Comps: base})
 	}
 	g.queue = q[1:]
 	return q[0]
@@ -1609,9 +1650,36 @@ func (g *Gen) genRelCycle(t *rapid.T) *Op {
 		mkChild(other)
 	}
 	var children []int
-	for i, k := 0, rapid.IntRange(1, 3).Draw(t, "cycleChildren"); i < k; i++ {
-		children = append(children, next)
-		mkChild(tgt)
+	if len(base) == 0 && rapid.IntRange(0, 1).Draw(t, "cycleViaSetRelation") == 0 {
+		// the table of (r, target) comes into being through a batch of zero entities; the children are created with the
+		// zero target and attached to the target by SetRelation only
+		g.It.count("relation-cycle-attached-by-setrelation-only")
+		if len(m.Obs) < 11 && m.Reg&comps.RelMask == comps.RelMask && rapid.Bool().Draw(t, "cycleObserver") {
+			g.It.count("relation-cycle-with-reentrant-observer")
+			// an observer of the relation assignment whose callback changes the world itself (through the mapper in use)
+			q = append(q, &Op{K: "obsNew", Mode: 1, OS: &ObsSpec{Inst: -1, Ev: EvAddRels, For: []int{r}, Reenter: true}})
+		}
+		q = append(q, &Op{K: "newBatch", P: PMap, M: r, Comps: []int{r}, N: 0, Init: InitVal, Vals: g.vals(1), Rels: []RelSpec{{C: r, T: tgt, S: rapid.IntRange(0, 2).Draw(t, "relStyle")}}})
+		for i, k := 0, rapid.IntRange(1, 3).Draw(t, "cycleChildren"); i < k; i++ {
+			children = append(children, next)
+			mkChild(-1)
+			if rapid.Bool().Draw(t, "cycleSetRelTyped") {
+				q = append(q, &Op{K: "setRel", E: next - 1, P: PMap, M: r, Rels: []RelSpec{{C: r, T: tgt, S: rapid.IntRange(0, 1).Draw(t, "relStyle")}}})
+			} else {
+				q = append(q, &Op{K: "setRel", E: next - 1, P: PUnsafe, Rels: []RelSpec{{C: r, T: tgt, S: 2}}})
+			}
+		}
+		if rapid.Bool().Draw(t, "cycleRemoveTargetAtOnce") {
+			// the target dies while its children were attached by SetRelation only
+			q = append(q, &Op{K: "removeEntity", E: tgt})
+			g.queue = q[1:]
+			return q[0]
+		}
+	} else {
+		for i, k := 0, rapid.IntRange(1, 3).Draw(t, "cycleChildren"); i < k; i++ {
+			children = append(children, next)
+			mkChild(tgt)
+		}
 	}
 	if rapid.Bool().Draw(t, "cycleFilter") {
 		fi := len(m.Filters)
